@@ -74,6 +74,37 @@ Proofs/RsExprLemmas.v); everything else still raises with file:line:col:
   calls   cfg.calls: abstract parameters (result type ('opt', t) = can panic); cfg.defs: functions translated earlier
           (every translated function registers itself: `mean(x)` -> `src_mean O sum_ x`, `self.m(a)` with the fields read)
   R2  `let mut i = a; while i < b { ..; i += 1; }`  ->  fold over rs_range_excl i b, the loop variable shadowing the state's i
+THIRD ROUND (definitions in Base/RsExprMore.v; everything below is opt-in through the target's Config, so that the files of the
+earlier targets regenerate byte for byte):
+  macros  `fn $op(..)` and `recv.$m(..)` inside a macro transcriber: the function is looked up under the name `$`, the method named
+          by a metavariable is an abstract parameter (cfg.meta_methods: `$m` -> (parameter, receiver type, [arg types], result
+          type)), the receiver passed as a value; cfg.owner_structs gives the fields of a `$selftype` declared in another file
+  methods `x.m(args)` for a method translated earlier (cfg.defs `self.m`) applied to a struct-typed variable, to a struct-valued
+          expression (its fields are bound first) or, for a newtype (cfg.newtype_self: `struct Vector { v: Vec<f64> }`, `self` = the
+          wrapped list), to the wrapped value; `x.m(args);` / `self.m(args);` for a `&mut self` method translated earlier with
+          result='fields' REBINDS the fields (also as the last expression of a `&mut self` method returning `&mut Self`); such a
+          call inside an expression is refused
+  values  `S { f: e, .. }` of the function's own struct with every field given, as a value (cfg.struct_literals): the tuple of the
+          fields in declaration order; `let v: Vec<Vec<f64>> = Vec::with_capacity(n)` (the annotation types the empty list);
+          `x.split_at(i)` (rs_split_at: panics unless i <= len), `x.split_first()` (rs_split_first: an Option)
+  match   (cfg.enum_pair_match) the ONE form read: `match s { [p, q] => .., _ => .. }` ending a block, s a pair `[a, b]` of values of one
+          enum of the file, p, q = `_` | `Enum::Variant` | `Enum::Variant(ident)` (no guards, no other patterns) -> a Gallina `match` on the pair
+          with the same patterns in the same order (first match wins in both languages) over `rs_<Enum>` (enum_decl: constructors
+          `rs_<Enum>_<Variant>`, a usize payload in Z); each arm is rendered like the branch of an `if` ending the block
+  $op     `a $op b` (cfg.meta_ops: `$op` -> {(type a, type b): (parameter, result type)}), `$f(args)` (cfg.calls `$f`): abstract parameters; the
+          operator is refused next to another binary operator (its precedence is unknown)
+  windows `tr.window(S, "index_mut")` reads `fn index_mut(&mut self, i: usize) -> &mut [f64] { assert!(c); &mut self.f[lo..hi] }` as a window of the
+          field f; then `x[i][j] = e`, `x[i].iter_mut().for_each(|a| *a = e)` and `x[i].iter_mut().zip(y).for_each(|(a, b)| *a = e)` (Parser.closure_assign)
+          are: read the window (`if c then rs_slice f lo hi else None`), change it (rs_set | map / rs_map_opt | rs_zip_assign), write it back
+          (rs_put_slice f lo w); `m[i]` for a struct-typed variable goes through the translated `Index<usize>::index`; `m.clone()` of a struct is m;
+          `[a, b] == [c, d]` on integer arrays (cfg.int_list_eq) is rs_zlist_eqb; a generic `F: Fn(f64) -> f64` argument may panic
+          (cfg.partial_fn_params: T -> option T)
+  R5  (cfg.wrap_i64_cast)  `x as i64` of an unsigned x  ->  rs_as_i64 x, the two's-complement reinterpretation
+  R6  (cfg.draw_methods: method -> (parameter, sampler object type, [arg types], result type))  a random draw `obj.sample()` ->
+      `let* (d, rng_) := sample_ obj rng_ in ..`: the generator state rng_ : St_ (an abstract type, a parameter of the generated
+      function) is threaded through the statements in execution order, belongs to the state of every loop / merged `if` whose body
+      draws, and is returned with the result; None = the draw does not return.  A draw inside a closure, a value `if` or an
+      `&&` / `||` operand is refused (the order of the draws would not be the statement order).
 """
 import os, re, sys
 from fractions import Fraction
@@ -195,6 +226,8 @@ AS_PREC = 10
 
 
 class Parser:
+    closure_assign = False      # see parse_primary (closures)
+
     def __init__(self, src, lo=0, hi=None):
         self.src, self.t, self.i = src, src.toks, lo
         self.hi = len(src.toks) - 1 if hi is None else hi
@@ -240,6 +273,9 @@ class Parser:
 
     def parse_fn(self):
         kw = self.expect("fn"); name = self.next()
+        if name.kind == "p" and name.text == "$" and self.peek().kind == "id":
+            # `fn $op(..)` inside a macro transcriber: the function is named by the metavariable
+            mv = self.next(); name = Tok("id", "$" + mv.text, name.pos, mv.end)
         if name.kind != "id": raise self.fail(name, "function name expected")
         generics = []
         if self.at("<"):
@@ -389,10 +425,10 @@ class Parser:
                 raise self.fail(t, f"`{t.text}` is outside the subset")
             e = self.parse_expr(stmt=True)
             if self.peek().kind == "p" and self.peek().text in ("+=", "-=", "*=", "/="):
-                op = self.next(); rhs = self.parse_expr(); semi = self.expect(";")
+                op = self.next(); rhs = self.parse_expr(); semi = rhs if self.at("}") else self.expect(";")      # `{ ..; x += e }`: unit-valued tail
                 stmts.append(N("opassign", e.pos, semi.end, op=op.text[0], target=e, e=rhs)); continue
             if self.at("="):
-                self.next(); rhs = self.parse_expr(); semi = self.expect(";")
+                self.next(); rhs = self.parse_expr(); semi = rhs if self.at("}") else self.expect(";")
                 stmts.append(N("assign", e.pos, semi.end, target=e, e=rhs)); continue
             if self.at(";"):
                 semi = self.next(); stmts.append(N("semi", e.pos, semi.end, e=e))
@@ -427,6 +463,17 @@ class Parser:
                 self.next(); tp = self.peek(); ty = self.next()
                 if ty.kind != "id": raise self.fail(tp, "cast target type expected")
                 lhs = N("cast", lhs.pos, ty.end, e=lhs, ty=ty.text); continue
+            if t.kind == "p" and t.text == "$" and self.peek(1).kind == "id" and not self.at("(", 2):
+                # `a $op b` inside a macro transcriber: a binary operator named by a metavariable.  Its precedence is not known, so it
+                # is only accepted between two operands that are not themselves binary expressions
+                if prec > 9: break
+                if lhs.kind == "bin": raise self.fail(t, "a macro metavariable operator next to another binary operator (its precedence is unknown)")
+                self.next(); mv = self.next()
+                rhs = self.parse_expr(AS_PREC, nostruct)
+                nx = self.peek()
+                if (nx.kind == "p" and nx.text in BINPREC) or (nx.kind == "p" and nx.text == "$"):
+                    raise self.fail(nx, "a macro metavariable operator next to another binary operator (its precedence is unknown)")
+                lhs = N("bin", lhs.pos, rhs.end, op="$" + mv.text, a=lhs, b=rhs); continue
             if t.kind != "p" or t.text not in BINPREC: break
             p = BINPREC[t.text]
             if p < prec: break
@@ -470,6 +517,9 @@ class Parser:
                 if nm.kind == "int" and not nm.suffix:
                     e = N("tfield", e.pos, nm.end, recv=e, idx=int(nm.text)); continue
                 if nm.kind in ("int", "float"): raise self.fail(nm, "nested tuple fields are outside the subset")
+                if nm.kind == "p" and nm.text == "$" and self.peek().kind == "id" and self.at("(", 1):
+                    # `recv.$method(..)` inside a macro transcriber: the method is named by the metavariable
+                    mv = self.next(); nm = Tok("id", "$" + mv.text, nm.pos, mv.end)
                 if nm.kind != "id": raise self.fail(nm, "method or field name expected")
                 turbofish = None
                 if self.at("::"):
@@ -547,10 +597,19 @@ class Parser:
                 if self.at(","): self.next()
             self.expect("|")
             body = self.parse_expr()
+            if self.at("=") and Parser.closure_assign:
+                # `|x| *x = e`: an assignment through the closure's parameter (only meaningful under `iter_mut().for_each(..)`); read only by
+                # the targets that switch Parser.closure_assign on, so that the refusals recorded by the earlier targets keep their wording
+                self.next(); rhs = self.parse_expr()
+                body = N("cassign", body.pos, rhs.end, target=body, e=rhs)
             one = params[0][1] if len(params) == 1 and params[0][0] == "var" else None
             return N("closure", t.pos, body.end, param=one, params=params, body=body)
         if t.kind == "p" and t.text == "||":
             raise self.fail(t, "closure without parameters is outside the subset")
+        if t.kind == "p" and t.text == "$" and self.peek(1).kind == "id" and self.at("(", 2):
+            # `$f(args)` inside a macro transcriber: a call of the function named by the metavariable
+            self.next(); mv = self.next(); args, end = self.parse_args()
+            return N("call", t.pos, end, path=["$" + mv.text], args=args)
         if t.kind == "id":
             if t.text == "if": return self.parse_if()
             if t.text == "return":
@@ -573,8 +632,12 @@ class Parser:
                 # the statements around a `match` can still be translated as a fragment
                 self.next(); scrut = self.parse_expr(nostruct=True)
                 if not self.at("{"): raise self.fail(t, "`match` arms expected")
-                self.skip_balanced()
-                return N("match", t.pos, self.t[self.i - 1].end, scrut=scrut)
+                save = self.i
+                try: arms = self.parse_enum_pair_arms()
+                except Unsupported: arms = None
+                if arms is None:
+                    self.i = save; self.skip_balanced()
+                return N("match", t.pos, self.t[self.i - 1].end, scrut=scrut, arms=arms)
             if t.text in ("while", "for", "unsafe", "move"):
                 raise self.fail(t, f"`{t.text}` is outside the subset")
             # path
@@ -616,6 +679,40 @@ class Parser:
                 return self.parse_struct_lit(t, segs)
             return N("path", t.pos, end, segs=segs)
         raise self.fail(t, "expression expected")
+
+    def parse_enum_pair_arms(self):
+        """the arms of the ONE form of `match` the statement-level translator reads: the scrutinee is a pair `[a, b]` of values of
+           one enum, every pattern is `[p, q]` or `_` with p, q = `_` | `Enum::Variant` | `Enum::Variant(ident)`.
+           Returns [((p, q) | None, body)] with p = None | (enum path, variant, payload name | None), or None for any other form."""
+        self.expect("{"); arms = []
+        def pat1():
+            if self.at("_"):
+                self.next(); return None
+            nm = self.next()
+            if nm.kind != "id": raise Unsupported("not an enum pattern")
+            segs = [nm.text]
+            while self.at("::"):
+                self.next(); s2 = self.next()
+                if s2.kind != "id": raise Unsupported("not an enum pattern")
+                segs.append(s2.text)
+            if len(segs) < 2: raise Unsupported("not an enum pattern")
+            payload = None
+            if self.at("("):
+                self.next(); pv = self.next()
+                if pv.kind != "id": raise Unsupported("not an enum pattern")
+                payload = pv.text; self.expect(")")
+            return (segs[:-1], segs[-1], payload)
+        while not self.at("}"):
+            if self.at("_"):
+                self.next(); pat = None
+            else:
+                self.expect("["); a = pat1(); self.expect(","); b = pat1(); self.expect("]"); pat = (a, b)
+            self.expect("=>")
+            body = self.parse_block() if self.at("{") else self.parse_expr()
+            arms.append((pat, body))
+            if self.at(","): self.next()
+        self.expect("}")
+        return arms
 
     def parse_struct_lit(self, t, segs):
         self.expect("{"); fields = []
@@ -664,6 +761,7 @@ class Module:
         self.macro_fns = {}    # (macro name, owner, fn name) -> fn node
         self.aliases = {}      # `type A = B;`
         self.assoc = {}        # (owner, associated type name) -> type text     (`type PDFType = f64;` inside an impl)
+        self.enums = {}        # name -> [(variant, [payload type texts])]
         self._scan(0, len(self.src.toks) - 1, None, None)
 
     def _scan(self, lo, hi, owner, macro):
@@ -683,6 +781,26 @@ class Module:
                         fields.append((f.text, p.parse_type({",", "}"})))
                         if p.at(","): p.next()
                     p.next(); self.structs[nm.text] = fields
+                continue
+            if tk.kind == "id" and tk.text == "enum" and p.peek(1).kind == "id" and p.at("{", 2):
+                p.next(); nm = p.next(); p.next(); variants = []
+                while not p.at("}"):
+                    while p.at("#"): p.next(); p.skip_balanced()
+                    v = p.next(); tys = []
+                    if p.at("("):
+                        p.next()
+                        while not p.at(")"):
+                            tys.append(p.parse_type({",", ")"}))
+                            if p.at(","): p.next()
+                        p.next()
+                    elif p.at("{") or p.at("="): tys = None      # struct-like variants / discriminants: not modelled
+                    variants.append((v.text, tys))
+                    if tys is None:
+                        while not (p.at(",") or p.at("}")):
+                            if p.at("{") or p.at("("): p.skip_balanced()
+                            else: p.next()
+                    if p.at(","): p.next()
+                p.next(); self.enums[nm.text] = variants
                 continue
             if tk.kind == "id" and tk.text == "const" and p.peek(1).kind == "id" and p.at(":", 2):
                 p.next(); nm = p.next(); p.expect(":"); ty = p.parse_type({"="}); p.expect("=")
@@ -730,7 +848,7 @@ class Module:
                 # find the extent of the function without parsing its body
                 q = Parser(self.src, p.i, hi)
                 while not q.at("{") and not q.at(";"):
-                    if q.at("("): q.skip_balanced()
+                    if q.at("(") or q.at("["): q.skip_balanced()      # `-> [usize; 2]`: the `;` of an array type does not end the item
                     else: q.next()
                 if q.at(";"): p.i = q.i + 1; continue
                 q.skip_balanced()
@@ -1304,6 +1422,7 @@ LOOP_RESERVED = {
     "fold_left", "combine", "rev", "length", "bind", "fst", "snd", "nth_error", "repeat", "tt", "app", "unit", "firstn", "skipn",
     "upd", "guard", "map2", "pair", "nil", "cons",
     "rs_set_len", "rs_swap", "rs_f64_epsilon", "rs_while", "rs_repeat", "uninit_", "fuel_", "Some", "None", "option",
+    "rs_as_i64", "rs_split_at", "rs_split_first", "rng_", "St_",
 }
 
 
@@ -1397,6 +1516,8 @@ class LoopTranslator(Translator):
         if t == "b": return "bool"
         if t == "unit": return "unit"
         if t == "nat": return "nat"
+        if t == "St": return "St_"
+        if t[0] == "enum": return "rs_" + t[1]
         if t[0] == "struct": return "(" + " * ".join(self.cty_a(ft) for _, ft in self.cfg.struct_fields[t[1]]) + ")"
         if t[0] == "list": return f"list {self.cty_a(t[1])}"
         if t[0] == "tup": return "(" + " * ".join(self.cty_a(x) for x in t[1]) + ")"
@@ -1470,7 +1591,9 @@ class LoopTranslator(Translator):
 
     def scoped_value(self, thunk):
         """(term, type) of a sub-expression evaluated conditionally: its own panics stay inside it"""
-        (v, t), bs = self.scoped(thunk)
+        self.nodraw = getattr(self, "nodraw", 0) + 1
+        try: (v, t), bs = self.scoped(thunk)
+        finally: self.nodraw -= 1
         return v, t, bs
 
     # ---- patterns
@@ -1529,6 +1652,10 @@ class LoopTranslator(Translator):
                 if t == "f": return s, "f"
                 if is_int(t): return f"ofZ O ({s})", "f"
             elif e.ty in INT_TYPES:
+                if is_int(t) and e.ty == "i64" and t == "i" and getattr(self.cfg, "wrap_i64_cast", False):
+                    note = "R5: `x as i64` for an unsigned x is rs_as_i64 x: the two's-complement reinterpretation (values from 2^63 on become negative)"
+                    if note not in self.notes: self.notes.append(note)
+                    return f"rs_as_i64 ({s})", "si"
                 if is_int(t):
                     note = "integer-to-integer `as` casts are the identity on Z (no wrap-around)"
                     if note not in self.notes: self.notes.append(note)
@@ -1596,7 +1723,15 @@ class LoopTranslator(Translator):
         if k == "return": raise self.fail(e, "`return` inside an expression")
         if k in ("assert", "panic"): raise self.fail(e, "panic inside an expression")
         if k == "closure": raise self.fail(e, "closure outside `.map(..)` / `.fold(..)`")
-        if k == "struct": raise self.fail(e, "struct literal is outside the subset")
+        if k == "struct":
+            # `S { f: e, .. }` / `Self { .. }` of the function's own struct, every field given: the tuple of the fields in declaration order
+            st = self.m.structs.get(self.owner) if getattr(self.cfg, "struct_literals", False) else None
+            if st is None or e.path[-1] not in (self.owner, "Self") or sorted(f for f, _ in st) != sorted(f for f, _ in e.fields):
+                raise self.fail(e, "struct literal is outside the subset")
+            vals = dict((f, self.expr(x, env)) for f, x in e.fields)
+            parts = [vals[f] for f, _ in st]
+            if len(parts) == 1: return parts[0]
+            return "(" + ", ".join(p[0] for p in parts) + ")", ("tup", tuple(p[1] for p in parts))
         if k == "str": raise self.fail(e, "string outside a macro")
         if k == "refmut": raise self.fail(e, "`&mut` is outside the subset")
         raise self.fail(e, f"unsupported expression ({k})")
@@ -1677,7 +1812,11 @@ class LoopTranslator(Translator):
             # the right operand can panic and is only evaluated when the left one does not decide
             rhs = self.bind_chain(bb, f"Some ({b})")
             return self.hoist(f"(if {a} then {rhs} else Some false)" if op == "&&" else f"(if {a} then Some true else {rhs})"), "b"
+        if op.startswith("$"): return self.meta_binop(e, env)
         a, ta = self.expr(e.a, env); b, tb = self.expr(e.b, env)
+        if op in ("==", "!=") and ta == ("list", "i") and tb == ("list", "i") and getattr(self.cfg, "int_list_eq", False):
+            # `[a, b] == [c, d]` on arrays of integers (`m1.shape() == m2.shape()`)
+            return (f"rs_zlist_eqb ({a}) ({b})" if op == "==" else f"negb (rs_zlist_eqb ({a}) ({b}))"), "b"
         if op in ("&", "|"):
             if ta != "b" or tb != "b": raise self.fail(e, f"`{op}` on non-booleans")
             return (f"andb ({a}) ({b})" if op == "&" else f"orb ({a}) ({b})"), "b"
@@ -1713,8 +1852,57 @@ class LoopTranslator(Translator):
             return tab[op].format(a=a, b=b), ("b" if cmp_ else tr)
         raise self.fail(e, f"operands of `{op}` have different or non-numeric types")
 
+    def meta_binop(self, e, env):
+        """`a $op b` in a macro transcriber: the operator named by a metavariable is an abstract parameter chosen by the operand types
+           (cfg.meta_ops: `$op` -> {(type a, type b): (Gallina parameter, result type)})"""
+        tab = getattr(self.cfg, "meta_ops", {}).get(e.op)
+        if tab is None: raise self.fail(e, f"operator `{e.op}` named by a macro metavariable is outside the subset (not in the target's table)")
+        a, ta = self.struct_value(e.a, env); b, tb = self.struct_value(e.b, env)
+        for (wa, wb), (cq, rt) in tab.items():
+            if self.same_type(ta, wa) and self.same_type(tb, wb) and (ta == "f") == (wa == "f") and (tb == "f") == (wb == "f"):
+                if cq not in self.used_calls: self.used_calls.append(cq)
+                self.cfg.calls.setdefault("<metaop>" + e.op + cq, (cq, [wa, wb], rt))
+                t_ = f"{cq} ({a}) ({b})"
+                if rt[0] == "opt": return self.hoist(f"({t_})", "r"), rt[1]
+                return t_, rt
+        raise self.fail(e, f"operands of `{e.op}` have types the target's table does not list")
+
+    def window_of(self, e, env):
+        """an lvalue `x[i]` / `self[i]` of a struct whose `IndexMut<usize>::index_mut` was translated as a window (cfg.windows: struct ->
+           (condition, field, lo, hi) read off `assert!(c); &mut self.f[lo..hi]`): returns (variable prefix, field name, Gallina term of
+           the window's start, option term reading the window)"""
+        e = self.strip(e)
+        if e.kind != "index" or e.idx.kind in ("range", "array"): return None
+        rv = self.strip(e.recv)
+        if rv.kind != "path" or len(rv.segs) != 1: return None
+        v = rv.segs[0]
+        if v == "self" and "self" not in env:
+            sname = (self.cfg.param_types.get("Self") or ("", None))[1]; pre = "self."
+        elif env.get(v, ("",))[0] == "<struct>":
+            sname = env[v][1][1]; pre = v + "."
+        else: return None
+        w = getattr(self.cfg, "windows", {}).get(sname)
+        if w is None: return None
+        i, ti = self.expr(e.idx, env)
+        if not is_int(ti): raise self.fail(e.idx, "index must be an integer")
+        fn, arg, cond, field, lo, hi = w
+        env2 = {("self." + f): env[pre + f] for f, _ in self.cfg.struct_fields[sname] if (pre + f) in env}
+        env2[arg] = (f"({i})", "i")
+        c, tc = self.expr(cond, env2); l, tl = self.expr(lo, env2); h, th = self.expr(hi, env2)
+        data = env[pre + field][0]
+        return pre, field, l, f"(if {c} then rs_slice ({data}) ({l}) ({h}) else None)"
+
     def index(self, e, env):
         rv = self.strip(e.recv)
+        if rv.kind == "path" and len(rv.segs) == 1 and env.get(rv.segs[0], ("",))[0] == "<struct>" and "self.index" in self.cfg.defs \
+                and e.idx.kind not in ("range", "array"):
+            # `m[i]` for a struct-typed variable through the translated `Index<usize>::index`
+            term, argt, rt, partial, used, fields = self.cfg.defs["self.index"]
+            self._env = env
+            for u in used:
+                if u not in self.used_calls: self.used_calls.append(u)
+            s_ = f"{term} " + " ".join([f"({env[rv.segs[0] + '.' + f[5:]][0]})" for f in fields] + self.args_of(e, [e.idx], argt))
+            return (self.hoist(f"({s_})", "r") if partial else f"({s_})"), rt
         if rv.kind == "path" and rv.segs == ["self"]:
             if "self.index" not in self.cfg.defs or e.idx.kind in ("range", "array"): raise self.fail(e, "`self[..]` is only supported as `self[i]` through a translated `Index<usize>::index`")
             return self.apply(e, "self.index", [e.idx], env)
@@ -1773,7 +1961,7 @@ class LoopTranslator(Translator):
         if t[0] != "list": raise self.fail(e, "an iterator / slice expected")
         return s, t[1]
 
-    def closure_fn(self, cl, argtypes, env):
+    def closure_fn(self, cl, argtypes, env, wrap=False):
         """(fun .. => body, result type, partial?)"""
         cl = self.strip(cl)
         if cl.kind == "path" and cl.segs[-2:] in (["f64", "max"], ["f64", "min"]) and all(t == "f" for t in argtypes) and len(argtypes) == 2:
@@ -1785,14 +1973,30 @@ class LoopTranslator(Translator):
         env2 = dict(env); pats = []
         for p, t in zip(cl.params, argtypes):
             pats.append(self.pattern(p, t, env2, cl))
-        (v, t), bs = self.scoped(lambda: self.expr(cl.body, env2))
-        body = self.bind_chain(bs, f"Some ({v})") if bs else v
+        self.nodraw = getattr(self, "nodraw", 0) + 1
+        try: (v, t), bs = self.scoped(lambda: self.expr(cl.body, env2))
+        finally: self.nodraw -= 1
+        body = self.bind_chain(bs, f"Some ({v})") if (bs or wrap) else v
         return f"fun {' '.join(pats)} => {body}", t, bool(bs)
 
     def mcall(self, e, env):
         name, args = e.name, e.args
         recv = self.strip(e.recv)
-        if recv.kind == "path" and recv.segs == ["self"]: return self.self_call(e, env)
+        if name in getattr(self.cfg, "draw_methods", {}): return self.draw(e, env)
+        if name.startswith("$"): return self.meta_call(e, env)
+        if name == "split_at" and len(args) == 1:
+            # `x.split_at(i)`: panics unless i <= len
+            l, t = self.iter_of(e.recv, env); i, ti = self.expr(args[0], env)
+            if not is_int(ti): raise self.fail(e, "`.split_at(i)`: an integer position expected")
+            return self.hoist(f"rs_split_at ({l}) ({i})", "p"), ("tup", (("list", t), ("list", t)))
+        if name == "split_first" and not args:
+            l, t = self.iter_of(e.recv, env)
+            return f"rs_split_first ({l})", ("opt", ("tup", (t, ("list", t))))
+        if recv.kind == "path" and recv.segs == ["self"] and "self" not in env: return self.self_call(e, env)
+        r = self.value_method(e, env)
+        if r is not None: return r
+        if name in ("clone", "to_owned") and not args and recv.kind == "path" and len(recv.segs) == 1 and env.get(recv.segs[0], ("",))[0] == "<struct>":
+            return self.expr(recv, env)      # a clone of a struct value is the value
         if name in ("sum", "product") and not args:
             l, t = self.iter_of(e.recv, env)
             if t != "f": raise self.fail(e, f"only `.{name}()` of f64 terms is supported")
@@ -1857,6 +2061,11 @@ class LoopTranslator(Translator):
         if len(argt) != len(args): raise self.fail(e, "wrong number of arguments")
         out = []
         for a, want in zip(args, argt):
+            if want[0] == "fn" and want[2][0] == "opt":
+                # a closure handed to a function translated with cfg.partial_fn_params: it may panic (T -> option T)
+                f, tr, partial = self.closure_fn(a, list(want[1]), env=self._env, wrap=True)
+                if not self.same_type(tr, want[2][1]): raise self.fail(a, "closure argument of the wrong type")
+                out.append(f"({f})"); continue
             if want[0] == "fn":
                 f, tr, partial = self.closure_fn(a, list(want[1]), env=self._env)
                 if partial or not self.same_type(tr, want[2]): raise self.fail(a, "closure argument of the wrong type (or one that can panic)")
@@ -1894,6 +2103,7 @@ class LoopTranslator(Translator):
         if len(e.path) == 1 and name in env and env[name][1][0] == "fn":
             f, ft = env[name]
             self._env = env
+            if ft[2][0] == "opt": return self.hoist(f"({f} " + " ".join(self.args_of(e, args, list(ft[1]))) + ")", "r"), ft[2][1]
             return f"{f} " + " ".join(self.args_of(e, args, list(ft[1]))), ft[2]
         if name in ("f64::min", "f64::max") and len(args) == 2:
             a, ta = self.expr(args[0], env); b, tb = self.expr(args[1], env)
@@ -1925,8 +2135,93 @@ class LoopTranslator(Translator):
         if r is not None: return r
         raise self.fail(e, f"call of `{name}` is outside the subset (not in the target's table of crate functions)")
 
+    def draw(self, e, env):
+        """a random draw `obj.sample()` / `obj.sample_n(n)` (cfg.draw_methods: method -> (Gallina parameter, receiver type, [arg types], result type)):
+           the generator's state is the hidden variable rng_ threaded through the function (rule R6): `let* (d, rng_) := sample_ obj rng_ in`;
+           `None` = the draw does not return (a panic, or a sampler that never accepts)"""
+        cq, rtype, argt, rt = self.cfg.draw_methods[e.name]
+        if "<rng>" not in env: raise self.fail(e, "a random draw where the generator state is not threaded")
+        if getattr(self, "nodraw", 0): raise self.fail(e, "a random draw inside a closure, a value `if` or an `&&` / `||` operand is outside the subset (the order of the draws would not be the statement order)")
+        r, tr = self.expr(e.recv, env)
+        if not self.same_type(tr, rtype): raise self.fail(e.recv, "random draw from something that is not the target's sampler object")
+        self._env = env
+        args = self.args_of(e, e.args, argt)
+        if cq not in self.used_draws: self.used_draws.append(cq)
+        note = "R6: a random draw `obj.sample()` is `let* (d, rng_) := sample_ obj rng_ in ..`: the generator state rng_ (an abstract type St_) is threaded through the statements in execution order and returned with the result; None = the draw does not return"
+        if note not in self.notes: self.notes.append(note)
+        st = env["<rng>"][0]
+        g = self.fresh("d")
+        self.binds[-1].append((f"({g}, {st})", f"{cq} ({r}) " + "".join(a + " " for a in args) + st))
+        return g, rt
+
+    def has_draw(self, node):
+        dm = getattr(self.cfg, "draw_methods", {})
+        if not dm: return False
+        def ex(n):
+            if isinstance(n, N):
+                if n.kind == "mcall" and n.name in dm: return True
+                return any(ex(v) for k, v in n.__dict__.items() if k not in ("kind", "pos", "end"))
+            if isinstance(n, (list, tuple)): return any(ex(v) for v in n)
+            return False
+        return ex(node)
+
+    def struct_value(self, e, env):
+        """(term, struct type) of a struct-valued receiver: `self` (its modelled fields, all of them), a struct-typed variable, or an expression"""
+        r = self.strip(e)
+        if r.kind == "path" and r.segs == ["self"] and "self" not in env:
+            for sname, fs in getattr(self.cfg, "struct_fields", {}).items():
+                if all(("self." + f) in env for f, _ in fs) and self.cfg.param_types.get("Self") == ("struct", sname):
+                    return "(" + ", ".join(env["self." + f][0] for f, _ in fs) + ")", ("struct", sname)
+            raise self.fail(e, "`self` as a value: not every field of the struct is modelled here")
+        return self.expr(e, env)
+
+    def meta_call(self, e, env):
+        """`recv.$m(args)` in a macro transcriber: the method named by a metavariable is an abstract parameter of the target's table
+           (cfg.meta_methods: `$m` -> (Gallina parameter, receiver type, [arg types], result type)); the receiver is passed as a value"""
+        tab = getattr(self.cfg, "meta_methods", {})
+        if e.name not in tab: raise self.fail(e, f"method `{e.name}` named by a macro metavariable is outside the subset (not in the target's table)")
+        cq, rt_recv, argt, rt = tab[e.name]
+        r, tr = self.struct_value(e.recv, env)
+        if not self.same_type(tr, rt_recv): raise self.fail(e.recv, "receiver of the wrong type")
+        self._env = env
+        if cq not in self.used_calls: self.used_calls.append(cq)
+        if cq not in [c[0] for c in self.cfg.calls.values()]: self.cfg.calls["<meta>" + e.name] = (cq, [rt_recv] + list(argt), rt)
+        s = f"{cq} ({r}) " + " ".join(self.args_of(e, e.args, argt))
+        if rt[0] == "opt": return self.hoist(f"({s})", "r"), rt[1]
+        return f"({s})", rt
+
+    def value_method(self, e, env):
+        """`x.m(args)` for a method `m` translated earlier (cfg.defs `self.m`, value result) applied to a struct-typed variable, a
+           struct-valued expression (its fields are bound first) or, for a method of a newtype, to the wrapped value"""
+        key = "self." + e.name
+        if key not in getattr(self.cfg, "defs", {}) or e.name in getattr(self.cfg, "mut_methods", set()): return None
+        term, argt, rt, partial, used, fields = self.cfg.defs[key]
+        recv = self.strip(e.recv)
+        if recv.kind == "path" and recv.segs == ["self"] and "self" not in env: return None      # `self.m(..)`: self_call
+        if fields == ["self"]:
+            r, tr = self.iter_of(e.recv, env)
+            fargs = [f"({r})"]
+        else:
+            r, tr = self.expr(e.recv, env)
+            if tr[0] != "struct": return None
+            fs = self.cfg.struct_fields[tr[1]]
+            if recv.kind == "path" and len(recv.segs) == 1 and env.get(recv.segs[0], ("",))[0] == "<struct>":
+                names = {f: env[recv.segs[0] + "." + f][0] for f, _ in fs}
+            else:
+                names = {f: self.fresh("s_" + f) for f, _ in fs}
+                self.binds[-1].append(("(" + ", ".join(names[f] for f, _ in fs) + ")", f"Some ({r})"))
+            fargs = [f"({names[f[5:]]})" for f in fields]
+        for u in used:
+            if u not in self.used_calls: self.used_calls.append(u)
+        self._env = env
+        s = f"{term} " + " ".join(fargs + self.args_of(e, e.args, argt))
+        if partial: return self.hoist(f"({s})", "r"), rt
+        return f"({s})", rt
+
     def self_call(self, e, env):
         key = "self." + e.name
+        if e.name in getattr(self.cfg, "mut_methods", set()):
+            raise self.fail(e, f"`self.{e.name}(..)` mutates `self`: only supported as a statement (or ending a `&mut self` method)")
         r = self.apply(e, key, e.args, env) if (key in self.cfg.defs or key in self.cfg.calls) else None
         if r is not None: return r
         raise self.fail(e, f"`self.{e.name}(..)` is outside the subset (not in the target's table)")
@@ -1960,7 +2255,12 @@ class LoopTranslator(Translator):
                 elif s.kind in ("assign", "opassign"):
                     v = self.root_var(s.target)
                     if v is None: raise self.fail(s.target, "assignment target outside the subset")
-                    if v not in local: add(v)
+                    tg = self.strip(s.target)
+                    if tg.kind == "index" and self.strip(tg.recv).kind == "index" and getattr(self.cfg, "windows", None):
+                        # `x[i][j] = e` through a window: the window's field of x is what changes
+                        if v not in local:
+                            for w in self.cfg.windows.values(): add(("self." if v == "self" else v + ".") + w[3])
+                    elif v not in local: add(v)
                     walk_expr(s.e, local)
                 elif s.kind == "for":
                     walk_block(s.body, local | set(s.pat))
@@ -1979,6 +2279,17 @@ class LoopTranslator(Translator):
             if e.kind == "mcall" and e.name in self.MUTATORS:
                 v = self.root_var(e.recv)
                 if v is not None and v not in local: add(v)
+            if e.kind == "mcall" and e.name == "for_each" and getattr(self.cfg, "windows", None):
+                r = self.strip(e.recv)
+                if r.kind == "mcall" and r.name == "zip": r = self.strip(r.recv)
+                if r.kind == "mcall" and r.name == "iter_mut":
+                    v = self.root_var(r.recv)
+                    if v is not None and v not in local:
+                        for w in self.cfg.windows.values(): add(("self." if v == "self" else v + ".") + w[3])
+            if e.kind == "mcall" and e.name in getattr(self.cfg, "mut_methods", set()):
+                v = self.root_var(e.recv)
+                if v is not None and v not in local:
+                    for f in self.cfg.defs["self." + e.name][5]: add(v + "." + f[5:])
             if self.is_mem_swap(e):
                 for a in e.args:
                     v = self.root_var(a.e)
@@ -1986,6 +2297,7 @@ class LoopTranslator(Translator):
             if e.kind in ("paren", "ref"): walk_expr(e.e, local)
         if node.kind == "block": walk_block(node, set(local))
         else: walk_expr(node, set(local))
+        if self.has_draw(node): add("<rng>")
         return out
 
     def ret_seen(self, t, where):
@@ -2020,6 +2332,14 @@ class LoopTranslator(Translator):
     def seq(self, stmts, tail, env, K, where):
         if not stmts:
             if tail is None: return K.fall(env, None, where)
+            if (tail.kind == "mcall" and tail.name in getattr(self.cfg, "mut_methods", set()) and self.strip(tail.recv).kind == "path"
+                    and self.strip(tail.recv).segs == ["self"] and "self" not in env and getattr(self, "result_mode", "value") == "fields" and K.kind == "fn"):
+                # `self.m(args)` ending a `&mut self` method that returns `&mut Self`: the mutation, then `self`
+                return self.seq([N("semi", tail.pos, tail.end, e=tail)], None, env, K, where)
+            if (tail.kind == "mcall" and tail.name in getattr(self.cfg, "mut_methods", set()) and self.strip(tail.recv).kind == "path"
+                    and env.get(self.root_var(tail.recv), ("",))[0] == "<struct>" and K.kind != "fn"):
+                # `{ ..; x.m(args) }` ending a loop body / branch: a unit-valued mutation of a struct-typed local is a statement
+                return self.seq([N("semi", tail.pos, tail.end, e=tail)], None, env, K, where)
             if tail.kind == "mcall" and tail.name in self.MUTATORS and self.root_var(tail.recv) in env:
                 # `{ ..; v.swap(a, b) }`: a unit-valued mutation in tail position is a statement
                 return self.seq([N("semi", tail.pos, tail.end, e=tail)], None, env, K, where)
@@ -2036,6 +2356,7 @@ class LoopTranslator(Translator):
                 v, t = vt
                 if s.ty is not None:
                     want = self.ty_of_rust(s.ty, s)
+                    if v == "[]" and want[0] == "list": t = want      # `let v: Vec<Vec<f64>> = Vec::with_capacity(n);`: the annotation gives the element type
                     if not self.same_type(want, t): raise self.fail(s, "declared type differs from the inferred one")
                     t = want      # the annotation decides the signedness of an integer literal
                 pat = self.pattern(s.pattern, t, env2, s)
@@ -2070,6 +2391,27 @@ class LoopTranslator(Translator):
             (na, ta), (nb, tb) = env[va], env[vb]
             if not self.same_type(ta, tb) or na == "<struct>": raise self.fail(e, "`swap`: values of one (non-struct) type expected")
             return f"let '({na}, {nb}) := ({nb}, {na}) in " + go(env)
+        if e.kind == "mcall" and e.name in getattr(self.cfg, "mut_methods", set()) and self.strip(e.recv).kind == "path" \
+                and (env.get(self.root_var(e.recv), ("",))[0] == "<struct>" or (self.strip(e.recv).segs == ["self"] and "self" not in env)):
+            # `x.m(args);` / `self.m(args);` for a `&mut self` method translated earlier (its result = the fields after the call): the fields are rebound
+            v = self.root_var(e.recv)
+            term, argt, rt, partial, used, fields = self.cfg.defs["self." + e.name]
+            for f in fields:
+                if (v + "." + f[5:]) not in env: raise self.fail(e, f"`{e.name}` writes `{f}`, which is not modelled here")
+            names = [env[v + "." + f[5:]][0] for f in fields]
+            def render():
+                for u in used:
+                    if u not in self.used_calls: self.used_calls.append(u)
+                self._env = env
+                t_ = f"{term} " + " ".join([f"({n})" for n in names] + self.args_of(e, e.args, argt))
+                return self.hoist(f"({t_})", "r") if partial else f"({t_})"
+            new, bs = self.scoped(render)
+            if bs and K.mode in ("total", "pure"): raise NeedMode("opt")
+            pat = names[0] if len(names) == 1 else "'(" + ", ".join(names) + ")"
+            return self.flush(bs, f"let {pat} := {new} in " + go(env), K)
+        if e.kind == "mcall" and e.name == "for_each" and len(e.args) == 1 and getattr(self.cfg, "windows", None):
+            r = self.for_each_window(e, env, K, go)
+            if r is not None: return r
         if e.kind == "mcall" and e.name in self.MUTATORS:
             v = self.root_var(e.recv)
             if v is None or v not in env or self.strip(e.recv).kind not in ("path", "field"): raise self.fail(e, "mutation of something other than a local Vec")
@@ -2104,8 +2446,64 @@ class LoopTranslator(Translator):
             return self.flush(bs, f"let {nm} := {new} in " + go(env), K)
         raise self.fail(s, "expression statement without effect on the result is outside the subset")
 
+    def for_each_window(self, e, env, K, go):
+        """`x[i].iter_mut().for_each(|a| *a = E)` and `x[i].iter_mut().zip(Y).for_each(|(a, b)| *a = E)` on a translated window: the
+           window is read, mapped (rs_map_opt when E can panic) resp. zipped (rs_zip_assign: stops at the shorter list, the remaining
+           cells keep their value), and written back"""
+        cl = self.strip(e.args[0]); r = self.strip(e.recv); ys = None
+        if r.kind == "mcall" and r.name == "zip" and len(r.args) == 1: ys = r.args[0]; r = self.strip(r.recv)
+        if not (r.kind == "mcall" and r.name == "iter_mut" and not r.args) or cl.kind != "closure" or cl.body.kind != "cassign": return None
+        def render():
+            w = self.window_of(r.recv, env)
+            if w is None: raise self.fail(e, "`iter_mut().for_each(..)` on something that is not a translated window `x[i]`")
+            pre, field, lo, read = w
+            row = self.hoist(read, "w")
+            envc = dict(env)
+            tgt = cl.body.target
+            if ys is None:
+                if len(cl.params) != 1 or cl.params[0][0] != "var": raise self.fail(cl, "`|x| *x = e` expected")
+                xs = [cl.params[0][1]]
+            else:
+                if len(cl.params) != 1 or cl.params[0][0] != "tup" or len(cl.params[0][1]) != 2 or any(q[0] != "var" for q in cl.params[0][1]): raise self.fail(cl, "`|(x, y)| *x = e` expected")
+                xs = [q[1] for q in cl.params[0][1]]
+            if not (tgt.kind == "ref" and self.src.text[tgt.pos] == "*" and tgt.e.kind == "path" and tgt.e.segs == [xs[0]]): raise self.fail(cl, "the closure must assign `*x` for its first parameter x")
+            names = []
+            for x in xs:
+                nm = self.ident(x, envc, x); envc[x] = (nm, "f"); names.append(nm)
+            self.nodraw = getattr(self, "nodraw", 0) + 1
+            try: (v, t), bs = self.scoped(lambda: self.expr(cl.body.e, envc))
+            finally: self.nodraw -= 1
+            if t != "f": raise self.fail(cl, "an f64 value expected")
+            if ys is None:
+                new = self.hoist(f"rs_map_opt (fun {names[0]} => {self.bind_chain(bs, f'Some ({v})')}) ({row})", "l") if bs else f"map (fun {names[0]} => {v}) ({row})"
+            else:
+                if bs: raise self.fail(cl, "a closure under `zip(..).for_each` that can panic is outside the subset")
+                y, ty = self.iter_of(ys, env)
+                if ty != "f": raise self.fail(ys, "a slice of f64 expected")
+                new = f"rs_zip_assign (fun {names[0]} {names[1]} => {v}) ({row}) ({y})"
+            return pre + field, f"rs_put_slice ({env[pre + field][0]}) ({lo}) ({new})"
+        (key, new), bs = self.scoped(render)
+        if bs and K.mode in ("total", "pure"): raise NeedMode("opt")
+        return self.flush(bs, f"let {env[key][0]} := {new} in " + go(env), K)
+
     def assign(self, s, env, K, go):
         tgt = self.strip(s.target)
+        if tgt.kind == "index" and tgt.idx.kind not in ("range", "array") and self.strip(tgt.recv).kind == "index" and s.kind == "assign" and getattr(self.cfg, "windows", None):
+            # `x[i][j] = e` through a translated window `IndexMut<usize>`: read the window, set position j, write the window back
+            def render():
+                rhs, tr = self.expr(s.e, env)
+                w = self.window_of(tgt.recv, env)
+                if w is None: raise self.fail(s.target, "assignment target outside the subset")
+                pre, field, lo, read = w
+                if tr != "f": raise self.fail(s, "assigned value of another type")
+                j, tj = self.expr(tgt.idx, env)
+                if not is_int(tj): raise self.fail(tgt.idx, "index must be an integer")
+                row = self.hoist(read, "w")
+                row2 = self.hoist(f"rs_set ({row}) ({j}) ({rhs})", "l")
+                return pre + field, f"rs_put_slice ({env[pre + field][0]}) ({lo}) ({row2})"
+            (key, new), bs = self.scoped(render)
+            if bs and K.mode in ("total", "pure"): raise NeedMode("opt")
+            return self.flush(bs, f"let {env[key][0]} := {new} in " + go(env), K)
         v = self.root_var(tgt)
         if v is None or v not in env: raise self.fail(s.target, "assignment to something that is not a mutable local")
         nm, t = env[v]
@@ -2230,12 +2628,71 @@ class LoopTranslator(Translator):
             return K.brk(env, e)
         if k == "continue": return K.cont(env, e)
         if k == "block": return self.seq(e.stmts, e.tail, dict(env), K, e)
+        if k == "match" and getattr(e, "arms", None) is not None and getattr(self.cfg, "enum_pair_match", False):
+            return self.match_pair(e, env, K)
         if k in ("if", "iflet") and (K.kind != "fn" or self.has_stmts(e)):
             # branches with statements (or a unit-valued `if` ending a loop body): each branch ends the enclosing block
             (s, bs) = self.scoped(lambda: self.cond_tree(e, env, lambda b, envb: self.seq(b.stmts, b.tail, envb, K, b), lambda envb: K.fall(envb, None, e), K))
             if bs and K.mode in ("total", "pure"): raise NeedMode("opt")
             return self.flush(bs, s, K)
         return self.tail_value(e, env, K)
+
+    def match_pair(self, e, env, K):
+        """`match s { [p, q] => .., _ => .. }` ending a block, s a pair of values of one enum (the ONE form of `match` in the subset):
+           a Gallina `match` on the pair with the same patterns in the same order (first match wins in both languages); each arm is
+           rendered like the branch of an `if` that ends the block"""
+        s_, ts = self.expr(e.scrut, env)
+        if not (ts[0] == "tup" and len(ts[1]) == 2 and ts[1][0] == ts[1][1] and ts[1][0][0] == "enum"):
+            raise self.fail(e, "`match` is only supported on a pair `[a, b]` of values of one enum")
+        ename = ts[1][0][1]
+        variants = dict(self.cfg.enums[ename])
+        out = []
+        for pat, body in e.arms:
+            envb = dict(env)
+            def one(p):
+                if p is None: return "_"
+                segs, var, payload = p
+                if segs[-1] != ename or var not in variants or variants[var] is None: raise self.fail(e, f"pattern `{'::'.join(segs + [var])}` is not a variant of `{ename}`")
+                tys = variants[var]
+                if payload is None:
+                    if tys: raise self.fail(e, f"variant `{var}` carries a value: bind it")
+                    return f"rs_{ename}_{var}"
+                if len(tys) != 1: raise self.fail(e, f"variant `{var}` does not carry exactly one value")
+                t = self.ty_of_rust(tys[0], e)
+                nm = self.ident(payload, envb, payload); envb[payload] = (nm, t)
+                return f"rs_{ename}_{var} {nm}"
+            ps = "_" if pat is None else f"({one(pat[0])}, {one(pat[1])})"
+            b = self.seq(body.stmts, body.tail, envb, K, body) if body.kind == "block" else self.tail(body, envb, K)
+            out.append(f"| {ps} => {b}")
+        return f"match {s_} with " + " ".join(out) + " end"
+
+    def enum_decl(self, name):
+        """the Gallina inductive type of a fieldless-or-single-payload Rust enum of this file: `rs_<Enum>` with constructors `rs_<Enum>_<Variant>`"""
+        vs = self.m.enums.get(name)
+        if vs is None: raise Unsupported(f"{os.path.basename(self.src.path)}: enum `{name}` not found")
+        if not hasattr(self, "generic_bounds"): self.generic_bounds = {}
+        parts = []
+        for v, tys in vs:
+            if tys is None: raise Unsupported(f"enum `{name}`: variant `{v}` is outside the subset")
+            parts.append(f"rs_{name}_{v}" + "".join(f" (_ : {self.cty_a(self.ty_of_rust(t))})" for t in tys))
+        if not hasattr(self.cfg, "enums"): self.cfg.enums = {}
+        self.cfg.enums[name] = vs
+        return f"Inductive rs_{name} : Type := " + " | ".join(parts) + "."
+
+    def window(self, owner, name):
+        """read `fn name(&mut self, i: usize) -> &mut [f64] { assert!(c); &mut self.f[lo..hi] }` (IndexMut<usize>::index_mut) as a
+           window of the field f: registers cfg.windows[owner] and returns a comment describing it"""
+        fn = self.m.fn(owner, name)
+        b = fn.body
+        ok = (fn.has_self and len(fn.params) == 1 and len(b.stmts) == 1 and b.stmts[0].kind == "semi" and b.stmts[0].e.kind == "assert" and b.tail is not None)
+        t = b.tail if ok else None
+        while t is not None and t.kind in ("paren", "ref", "refmut"): t = t.e
+        ok = ok and t is not None and t.kind == "index" and t.idx.kind == "range" and not t.idx.incl and t.idx.lo is not None and t.idx.hi is not None \
+            and t.recv.kind == "field" and t.recv.recv.kind == "path" and t.recv.recv.segs == ["self"]
+        if not ok: raise self.fail(fn, f"`{name}` is not of the form `assert!(c); &mut self.f[lo..hi]`")
+        if not hasattr(self.cfg, "windows"): self.cfg.windows = {}
+        self.cfg.windows[owner] = (name, fn.params[0][0], b.stmts[0].e.cond, t.recv.name, t.idx.lo, t.idx.hi)
+        return f"(* `{owner}::{name}`: `x[{fn.params[0][0]}]` as a place is the window {self.src.text[t.pos:t.end]} of the field, guarded by {self.src.text[b.stmts[0].e.cond.pos:b.stmts[0].e.cond.end]} *)"
 
     def has_stmts(self, e):
         if e.kind in ("if", "iflet"):
@@ -2371,11 +2828,19 @@ class LoopTranslator(Translator):
         self.idents = {t.text for t in self.src.toks[lo:hi] if t.kind == "id"}
         self.generic_bounds = {}
         for g, args, ret in re.findall(r"(\w+):Fn(?:Mut|Once)?\(([^)]*)\)->(\w+)", fn.where + "," + ",".join(fn.generics)):
-            self.generic_bounds[g] = ("fn", tuple(self.ty_of_rust(a, fn) for a in args.split(",") if a), self.ty_of_rust(ret, fn))
+            rt_ = self.ty_of_rust(ret, fn)
+            if getattr(self.cfg, "partial_fn_params", False): rt_ = ("opt", rt_)      # a closure argument may panic: T -> option T
+            self.generic_bounds[g] = ("fn", tuple(self.ty_of_rust(a, fn) for a in args.split(",") if a), rt_)
         env, binders = {}, []
         fields = []
-        if fn.has_self:
+        newtype = getattr(self.cfg, "newtype_self", {}).get(owner) if fn.has_self else None
+        if newtype is not None:
+            # a method of a newtype struct (`struct Vector { v: Vec<f64> }`, transparent through Deref): `self` is the wrapped value
+            nm = self.ident("self_"); env["self"] = (nm, newtype); binders.append((nm, newtype)); fields.append("self")
+            for f, _ in (self.m.structs.get(owner) or [])[:1]: env["self." + f] = (nm, newtype)      # the one field of the newtype is the value itself
+        elif fn.has_self:
             st = self.m.structs.get(owner)
+            if st is None: st = getattr(self.cfg, "owner_structs", {}).get(owner)      # the struct of another file (a macro's `$selftype`), given by the target
             if st is None: raise self.fail(fn, f"struct `{owner}` not found in this file")
             for f, ty in st:
                 if self_fields is not None and f not in self_fields: continue
@@ -2389,7 +2854,17 @@ class LoopTranslator(Translator):
             t = self.ty_of_rust(ty, tok); nm = self.ident(p, env, p)
             env[p] = (nm, t); binders.append((nm, t))
             if t[0] == "struct": prefix += f"let {self.bind_struct(p, t, env)} := {nm} in "
+        self.used_draws = []
+        threaded = self.has_draw(fn.body)
+        if threaded:
+            env["<rng>"] = ("rng_", "St"); binders.append(("rng_", "St"))
         def result_of(envr, val, where):
+            if threaded:
+                if result == "fields" or val is None: raise self.fail(where, "a function that draws random numbers must return a value")
+                self.ret_seen(("tup", (val[1], "St")), where)
+                return f"({val[0]}, {envr['<rng>'][0]})"
+            return result_of0(envr, val, where)
+        def result_of0(envr, val, where):
             if result == "fields":
                 s = "(" + ", ".join(envr[f][0] for f in fields) + ")" if len(fields) != 1 else envr[fields[0]][0]
                 self.ret_type = ("tup", tuple(envr[f][1] for f in fields)) if len(fields) != 1 else envr[fields[0]][1]
@@ -2407,16 +2882,26 @@ class LoopTranslator(Translator):
             rt = fn.ret.replace(" ", "")
             try: want = self.ty_of_rust(rt, fn)
             except Unsupported: want = None
+            if want is not None and threaded: want = ("tup", (want, "St"))      # the generator state comes back with the value
             if want is not None and not self.same_type(want, self.ret_type): raise self.fail(fn, "declared result type differs from the inferred one")
         callb = []
         for cq, argt, rt in list(self.cfg.calls.values()):
             if cq in self.used_calls and cq not in [c for c, _ in callb]:
                 callb.append((cq, " -> ".join(self.cty_a(a) for a in list(argt) + [("opt", rt[1]) if rt[0] == "optval" else rt])))
-        pre = "{T : Type} (O : Ops T)" + "".join(f" ({c} : {ty})" for c, ty in callb)
+        if threaded:
+            callb = [("{St_", "Type}")] + callb
+            for cq, rtype, argt, rt in self.cfg.draw_methods.values():
+                if cq in self.used_draws:
+                    callb.append((cq, " -> ".join([self.cty_a(rtype)] + [self.cty_a(a) for a in argt] + ["St_", f"option ({self.cty_a(rt)} * St_)"])))
+        pre = "{T : Type} (O : Ops T)" + "".join((f" {c} : {ty}" if c.startswith("{") else f" ({c} : {ty})") for c, ty in callb)
+        if threaded: callb = [c for c in callb if not c[0].startswith("{")]
         sig = pre + "".join(f" ({b} : {self.cty(t)})" for b, t in binders)
         rty = self.cty(self.ret_type)
         text = f"Definition {coq_name} {sig} : {f'option {self.cty_a(self.ret_type)}' if self.partial else rty} :=\n  {body}."
         key = ("self." + name) if fn.has_self else name
+        if fn.has_self and result == "fields":
+            if not hasattr(self.cfg, "mut_methods"): self.cfg.mut_methods = set()
+            self.cfg.mut_methods.add(name)
         argt = [t for _, t in binders]
         self.cfg.defs[key] = (coq_name + " O" + "".join(f" {c}" for c, _ in callb), argt[len(fields):] if fn.has_self else argt, self.ret_type, self.partial, [c for c, _ in callb], list(fields))
         self.last_fields = fields
@@ -2645,6 +3130,51 @@ _LNEG = [   # (Rust, fragment the refusal must mention)
     ('fn f(x: &[f64]) -> f64 { unsafe { *x.get_unchecked(0) } }', '`unsafe`'),
 ]
 
+_DU = ("tup", ("si", "si"))
+_MAT2 = ("struct", "Mat")
+_MACRO = 'macro_rules! m { ($op: ident, $inner: ident) => { fn $op(&self, o: Mat) -> Mat { self.$inner(o) } } }'
+_MACRO_CFG = {"struct_fields": {"Mat": [("r", "i"), ("d", ("list", "f"))]}, "param_types": {"Mat": _MAT2, "Self": _MAT2}, "owner_structs": {None: [("r", "usize"), ("d", "Vec<f64>")]}}
+_UPD = 'struct P { c: Vec<f64> } impl P { fn upd(&mut self, p: &[f64]) -> &mut Self { self.c = p.to_owned(); self } '
+_L3 = [   # third round: (Rust, expected Gallina body | None, fragment of the refusal | None, Config attributes, how to call `function`)
+    ('fn f(x: &[f64]) -> i64 { (x.len() - 1) as i64 }', 'rs_as_i64 (rs_usub (rs_len (x)) (1%Z))', None, {"wrap_i64_cast": True}, {}),
+    ('fn f(x: &[f64], i: usize) -> Vec<f64> { let (a, b) = x.split_at(i); let (_, r) = b.split_first().unwrap(); let mut v = a.to_vec(); v.extend_from_slice(r); v }',
+     "let* p1 := rs_split_at (x) (i) in let '(a, b) := p1 in let* u2 := rs_split_first (b) in let '(_, r) := u2 in let v := a in let v := v ++ r in Some (v)", None, {}, {}),
+    ('fn f(x: &[f64]) -> Vec<Vec<f64>> { let mut r: Vec<Vec<f64>> = Vec::with_capacity(2); r.push(x.to_vec()); r }', 'let r := [] in let r := r ++ [x] in r', None, {}, {}),
+    ('fn f(d: D, n: usize) -> f64 { let mut s = 0.; for _ in 0..n { s += d.sample(); } s }',
+     "let s := zero O in let* (rng_, s) := rs_fold_opt (fun '(rng_, s) _ => let* (d1, rng_) := sample_ (d) rng_ in let s := add O (s) (d1) in Some (rng_, s)) (rs_range_excl (0%Z) (n)) (rng_, s) in Some ((s, rng_))",
+     None, {"draw_methods": {"sample": ("sample_", _DU, [], "f")}, "param_types": {"D": _DU}}, {}),
+    ('fn f(d: D, x: &[f64]) -> Vec<f64> { x.iter().map(|v| v + d.sample()).collect() }', None, 'a random draw inside a closure',
+     {"draw_methods": {"sample": ("sample_", _DU, [], "f")}, "param_types": {"D": _DU}}, {}),
+    ('fn f(d: D, b: bool) -> bool { b && d.sample() > 0. }', None, 'a random draw inside a closure',
+     {"draw_methods": {"sample": ("sample_", _DU, [], "f")}, "param_types": {"D": _DU}}, {}),
+    ('struct S { a: f64, b: usize } impl S { fn f(b: usize) -> Self { S { a: 0., b } } }', '(zero O, b)', None, {"struct_literals": True}, {"owner": "S"}),
+    ('struct S { a: f64, b: usize } impl S { fn f(b: usize) -> Self { S { a: 0., b } } }', None, 'struct literal is outside the subset', {}, {"owner": "S"}),
+    (_MACRO, "let '(o_r, o_d) := o in let* r1 := (inner_ ((r, d)) ((o_r, o_d))) in Some (r1)", None,
+     dict(_MACRO_CFG, meta_methods={"$inner": ("inner_", _MAT2, [_MAT2], ("opt", _MAT2))}), {"name": "$", "macro": "m"}),
+    (_MACRO, None, 'named by a macro metavariable', _MACRO_CFG, {"name": "$", "macro": "m"}),
+    ('struct V { v: Vec<f64> } impl V { fn data(&self) -> &[f64] { &self.v } fn f(&self, w: V) -> usize { self.data().len() + w.data().len() } }',
+     'Z.add (rs_len ((data O (self_)))) (rs_len ((data O (w))))', None, {"newtype_self": {"V": ("list", "f")}, "param_types": {"V": ("list", "f")}}, {"owner": "V", "pre": [("data", "value")]}),
+    (_UPD + 'fn f(&mut self, x: &[f64]) -> &mut Self { let y = x.to_vec(); self.upd(&y) } }', 'let y := x in let c := (upd O (c) (y)) in c', None, {},
+     {"owner": "P", "pre": [("upd", "fields")], "result": "fields"}),
+    (_UPD + 'fn f(&mut self, x: &[f64]) -> usize { let n = self.upd(x); 0 } }', None, 'mutates `self`', {}, {"owner": "P", "pre": [("upd", "fields")]}),
+    ('macro_rules! m { ($op: tt) => { fn f(a: f64, b: f64) -> f64 { a $op b } } }', 'op_ (a) (b)', None, {"meta_ops": {"$op": {("f", "f"): ("op_", "f")}}}, {"macro": "m"}),
+    ('macro_rules! m { ($op: tt) => { fn f(a: f64, b: f64) -> f64 { a $op b + 1. } } }', None, 'next to another binary operator', {"meta_ops": {"$op": {("f", "f"): ("op_", "f")}}}, {"macro": "m"}),
+    ('macro_rules! m { ($op: tt) => { fn f(a: f64, b: f64) -> f64 { a $op b } } }', None, 'named by a macro metavariable', {}, {"macro": "m"}),
+    ('enum E { A(usize), B } fn f(p: [E; 2]) -> usize { match p { [E::A(n), E::B] => n, [_, E::A(k)] => { k + 1 } _ => 0 } }',
+     'match p with | (rs_E_A n, rs_E_B) => n | (_, rs_E_A k) => Z.add (k) (1%Z) | _ => 0%Z end', None,
+     {"enum_pair_match": True, "param_types": {"[E;2]": ("tup", (("enum", "E"), ("enum", "E")))}}, {"enum": "E"}),
+    ('enum E { A(usize), B } fn f(p: [E; 2]) -> usize { match p { [E::A(n), E::B] => n, _ => 0 } }', None, '`match` is outside the subset',
+     {"param_types": {"[E;2]": ("tup", (("enum", "E"), ("enum", "E")))}}, {"enum": "E"}),
+    ('enum E { A(usize), B } fn f(p: [E; 2]) -> usize { match p { [E::A(n), E::B] if n > 0 => n, _ => 0 } }', None, '`match` is outside the subset',
+     {"enum_pair_match": True, "param_types": {"[E;2]": ("tup", (("enum", "E"), ("enum", "E")))}}, {"enum": "E"}),
+    ('struct M { d: Vec<f64>, r: usize, c: usize } impl M { fn index_mut(&mut self, i: usize) -> &mut [f64] { assert!(i < self.r); &mut self.d[i * self.c..(i + 1) * self.c] } '
+     'fn f(&mut self, i: usize, j: usize, v: f64, y: &[f64]) { self[i][j] = v; self[i].iter_mut().zip(y).for_each(|(a, b)| *a = *a - b); } }',
+     'let* w1 := (if Z.ltb ((i)) (r) then rs_slice (d) (Z.mul ((i)) (c)) (Z.mul (Z.add ((i)) (1%Z)) (c)) else None) in let* l2 := rs_set (w1) (j) (v) in let d := rs_put_slice (d) (Z.mul ((i)) (c)) (l2) in '
+     'let* w3 := (if Z.ltb ((i)) (r) then rs_slice (d) (Z.mul ((i)) (c)) (Z.mul (Z.add ((i)) (1%Z)) (c)) else None) in let d := rs_put_slice (d) (Z.mul ((i)) (c)) (rs_zip_assign (fun a b => sub O (a) (b)) (w3) (y)) in Some ((d, r, c))',
+     None, {"struct_fields": {"M": [("r", "i"), ("c", "i"), ("d", ("list", "f"))]}, "param_types": {"Self": ("struct", "M")}},
+     {"owner": "M", "window": ("M", "index_mut"), "result": "fields", "closure_assign": True}),
+]
+
 
 def selftest():
     """cheap regression test of the translator itself; every target runs it before translating"""
@@ -2682,7 +3212,25 @@ def selftest():
                 raise Unsupported(f"rsexpr self-test (loops): `{rust}` was refused with an unexpected message: {ex}")
             continue
         raise Unsupported(f"rsexpr self-test (loops): `{rust}` is outside the subset but was translated")
-    return len(_POS) + len(_POS_SELF) + len(_NEG) + len(_LPOS) + len(_LPOS_CFG) + len(_LNEG)
+    for rust, want, frag, attrs, how in _L3:
+        cfg = Config(param_types=dict(attrs.get("param_types") or {}))
+        for k, v in attrs.items():
+            if k != "param_types": setattr(cfg, k, dict(v) if isinstance(v, dict) else v)
+        Parser.closure_assign = how.get("closure_assign", False)
+        try:
+            tr = LoopTranslator(Module("selftest.rs", rust), cfg)
+            if "enum" in how: tr.enum_decl(how["enum"])
+            if "window" in how: tr.window(*how["window"])
+            for nm, res in how.get("pre", []): tr.function(how.get("owner"), nm, nm, result=res)
+            got = tr.function(how.get("owner"), how.get("name", "f"), "f", macro=how.get("macro"), result=how.get("result", "value")).text.split(":=\n  ", 1)[1].rstrip(".")
+        except Unsupported as ex:
+            if frag is None or frag not in str(ex) or not re.search(r"selftest\.rs:\d+:\d+", str(ex)):
+                raise Unsupported(f"rsexpr self-test (third round): `{rust}` was refused with an unexpected message: {ex}")
+            continue
+        finally: Parser.closure_assign = False
+        if frag is not None: raise Unsupported(f"rsexpr self-test (third round): `{rust}` is outside the subset but was translated")
+        if got != want: raise Unsupported(f"rsexpr self-test (third round): `{rust}` rendered as `{got}`, expected `{want}`")
+    return len(_POS) + len(_POS_SELF) + len(_NEG) + len(_LPOS) + len(_LPOS_CFG) + len(_LNEG) + len(_L3)
 
 
 
